@@ -180,6 +180,8 @@ def parse(path: str) -> UnitSpec:
                 u.order.append(("raw", txt[len("raw"):].lstrip("\n ")))
             elif head == "mode":
                 u.mode = rest
+            elif head == "plainfn":
+                u.order.append(("plainfn", (src, rest.strip())))
             elif head == "wrap":
                 cur = WrapSpec(rest.strip(), src)
                 u.order.append(("wrap", cur))
